@@ -16,6 +16,7 @@ var (
 	errReadUUID          = errors.Wrap(ErrBufLength, "readUUID")
 	errReadFlags         = errors.Wrap(ErrBufLength, "readFlags")
 	errReadHdlr          = errors.Wrap(ErrBufLength, "readHdlr")
+	errCTBOLength        = errors.Wrap(ErrBufLength, "readCTBOBox")
 	errPRVWBoxDiscard    = errors.Wrap(ErrBufLength, "readPRVWBoxDiscard")
 	errPRVWBoxPeek       = errors.Wrap(ErrBufLength, "readPRVWBoxPeek")
 	errPreviewBoxPeek    = errors.Wrap(ErrBufLength, "parsePreviewBoxPeek")
